@@ -10,6 +10,7 @@ import (
 	"go/token"
 	"go/types"
 	"math/big"
+	"os"
 	"sort"
 	"strings"
 	"time"
@@ -27,9 +28,12 @@ type Obligation struct {
 	Where   string // source position / text (informational)
 	Path    int
 	// model extraction support
-	Inputs []NamedVal
-	Props  []string // clause-level properties (nil: function-level)
-	ex     *Exec
+	Inputs  []NamedVal
+	Props   []string // clause-level properties (nil: function-level)
+	ex      *Exec
+	Foreign [][2]int64 // see State.foreign
+	Cone    bool       // scripts keep only the assumptions connected to the goal (first, cheap attempt)
+	Approx  bool       // scripts drop quantified assumptions and axioms (candidate models for replay only)
 }
 
 type NamedVal struct {
@@ -175,7 +179,7 @@ func (ex *Exec) addObl(st *State, kind, label string, goal *Term, where string) 
 	o := &Obligation{
 		Name: ex.rootName + "#" + label, Func: ex.rootName, Label: label, Kind: kind,
 		Assumes: append([]*Term{}, st.assumes...), Goal: goal, Where: where, Path: ex.paths,
-		Inputs: ex.inputs, ex: ex,
+		Inputs: ex.inputs, ex: ex, Foreign: append([][2]int64{}, st.foreign...),
 	}
 	ex.obls = append(ex.obls, o)
 }
@@ -220,6 +224,17 @@ func (st *State) substMap() map[*Term]*Term { return st.subst }
 func (st *State) AssumeCond(c *Term) {
 	st.Assume(c)
 	st.learn(c)
+	// implications assumed earlier (callee postconditions "err == nil ==> ...") whose antecedent
+	// is now known: learn their consequents too (constant lengths etc.)
+	if c.Op == "=" || c.Op == "var" || c.Op == "not" {
+		for _, a := range st.assumes {
+			if a.Op == "=>" && !a.bound {
+				if ant := Subst(a.Args[0], st.substMap()); ant.IsTrue() {
+					st.learn(a.Args[1])
+				}
+			}
+		}
+	}
 }
 
 func (st *State) learn(c *Term) {
@@ -234,6 +249,13 @@ func (st *State) learn(c *Term) {
 			st.addSubst(a, b)
 		} else if a.IsConst() && !b.IsConst() {
 			st.addSubst(b, a)
+		} else if a.Op == "var" && b.Op == "var" && !a.bound && !b.bound {
+			// two names for one value: keep the older one
+			if a.id > b.id {
+				st.addSubst(a, b)
+			} else {
+				st.addSubst(b, a)
+			}
 		} else if a.Op == "select" && b.Op != "select" && !a.bound && !b.bound && a.Sort.IsBV() {
 			// memory cell known to hold a value expressed without memory: rewrite the cell
 			st.addSubst(a, b)
@@ -269,7 +291,13 @@ func (st *State) learn(c *Term) {
 
 func (st *State) addSubst(a, b *Term) {
 	n := make(map[*Term]*Term, len(st.subst)+1)
+	if r, ok := st.subst[b]; ok && r != a {
+		b = r
+	}
 	for k, v := range st.subst {
+		if v == a {
+			v = b
+		}
 		n[k] = v
 	}
 	n[a] = b
@@ -359,13 +387,23 @@ func (ex *Exec) runBlockNoPhi(fr *Frame, b *ssa.BasicBlock, st *State, visits ma
 	ex.runInstrs(fr, b, 0, st, visits)
 }
 
+var traceOn = os.Getenv("GOV_TRACE") != ""
+
 func (ex *Exec) runBlock(fr *Frame, b *ssa.BasicBlock, prev *ssa.BasicBlock, st *State, visits map[*ssa.BasicBlock]int) {
 	if fr.stopAt == b && fr.stopK != nil {
 		fr.stopK(st, fr, prev)
 		return
 	}
+	if traceOn {
+		fmt.Printf("TRACE path=%d depth=%d %s b%d (%s)\n", ex.paths, fr.depth, shortFn(fr.fn), b.Index, b.Comment)
+	}
 	visits[b]++
-	if visits[b] > 600 {
+	visitLimit := 600
+	if strings.HasPrefix(fr.fn.Name(), "lemma") {
+		// loop-free client lemmas: the counter is shared by sibling paths that fork inside callees
+		visitLimit = 200000
+	}
+	if visits[b] > visitLimit {
 		panic(abortAll{fmt.Sprintf("block visit limit in %s (loop without invariant?)", fr.fn)})
 	}
 	// leaving a loop that was cut at its head: facts dropped there are valid again
@@ -465,7 +503,9 @@ func (ex *Exec) runInstrs(fr *Frame, b *ssa.BasicBlock, start int, st *State, vi
 			// a branch that keeps forking at the same block (unrolled loop with a symbolic
 			// bound): decide feasibility with the solver so that bounded loops terminate
 			feas := ex.eng.feasible
-			if visits[b] > 3 {
+			if visits[b] > 3 || ex.paths >= 4 {
+				// many paths already: decide feasibility of further branches with the solver
+				// (infeasible branches are otherwise explored and discharged one by one)
 				feas = ex.eng.feasibleSolver
 			}
 			st1 := st.Clone()
@@ -1048,6 +1088,12 @@ func (ex *Exec) makeSlice(fr *Frame, x *ssa.MakeSlice, st *State) {
 	if !n.IsConst() && n.Op != "var" {
 		v := FreshVar("mklen", BV(64))
 		st.Assume(Eq(v, n))
+		la := make(map[*Term]*Term, len(st.lenAlias)+1)
+		for k, x := range st.lenAlias {
+			la[k] = x
+		}
+		la[v] = n
+		st.lenAlias = la
 		n = v
 	}
 	if same {
@@ -1057,7 +1103,20 @@ func (ex *Exec) makeSlice(fr *Frame, x *ssa.MakeSlice, st *State) {
 		st.Assume(Eq(v, c))
 		c = v
 	}
-	fr.regs[x] = &SliceV{Base: st.FreshRegion(), Off: BVc(0, 64), Len: n, Cap: c}
+	base := st.FreshRegion()
+	fr.regs[x] = &SliceV{Base: base, Off: BVc(0, 64), Len: n, Cap: c}
+	if sl, ok := x.Type().Underlying().(*types.Slice); ok {
+		if b, ok := sl.Elem().Underlying().(*types.Basic); ok && b.Kind() == types.Uint8 {
+			// byte buffers built locally: content tracked as a sequence of segments
+			id := *st.nextRg
+			if isZero(n) {
+				st.setRegionSeq(id, []Seg{})
+			} else {
+				st.setRegionSeq(id, []Seg{{Zero: n}})
+			}
+			st.setRegionLen(id, n)
+		}
+	}
 }
 
 // ---------- maps ----------
